@@ -365,7 +365,7 @@ impl Prop for C15 {
     }
     fn plan(&self, tier: Tier) -> Plan {
         match tier {
-            Tier::Quick => Plan { runs: 64, time_box_s: None, isolation: Isolation::Threads },
+            Tier::Quick => Plan { runs: 192, time_box_s: None, isolation: Isolation::Threads },
             Tier::Thorough => Plan { runs: 4000, time_box_s: Some(420), isolation: Isolation::Threads },
         }
     }
@@ -381,6 +381,7 @@ impl Prop for C15 {
             max_points_knob_off: 0,
             custom_xml: true,
             small: true,
+            big_permille: 0,
         };
         let prog = gen_program(rc.run_seed, &cfg);
         let mut c = Rng::stream(rc.run_seed, "chunk-dev");
